@@ -114,6 +114,7 @@ type Exec struct {
 	bufAliases map[string][]*BytesV
 	fullTimeout int
 	freshRetries int
+	escalations  int
 }
 
 func (e *Exec) fresh(prefix string, s Sort) *Term {
@@ -190,6 +191,17 @@ func (e *Exec) check(extra *Term) string {
 		e.solver.Errors += ns.Errors
 		ns.Close()
 		e.freshRetries++
+		if r == "unknown" && secondSolver != "" && !strings.Contains(e.solver.bin, "cvc5") {
+			// last resort: the other z3 release, three times the budget (robust to a loaded machine)
+			ns = e.solver.FreshBin(secondSolver, 3*e.fullTimeout)
+			ns.Assert(extra)
+			r = ns.Check()
+			e.solver.Queries++
+			e.solver.Time += ns.Time
+			e.solver.Errors += ns.Errors
+			ns.Close()
+			e.escalations++
+		}
 	}
 	if r == "unknown" {
 		e.unknowns++
